@@ -19,7 +19,10 @@ from esrally import metrics
 HOST, PORT = "metrics.example.org", 9243
 
 WIRE_BASE = ["ok", "ctimeout", "cerror", "tls", "http429", "http502", "http503", "http504", "http401", "http403", "http404", "http400", "http409", "http500", "badjson",
-             "html502", "html503", "html504", "text503", "empty502"]
+             "html502", "html503", "html504", "text503", "empty502",
+             # JSON error bodies of other shapes than the usual one: A = empty root_cause (search_phase_execution_exception, "all shards failed"),
+             # B = "error" is a plain string (REST layer, proxies), C = no "error" member, D = a JSON array
+             "jsnA503", "jsnB503", "jsnC502", "jsnD504", "jsnA500", "jsnB400"]
 WIRE_BULK = ["items429", "items503", "items429+201", "items201+503", "items400", "items429+400", "items400+429", "items502+504", "items409+201"]
 
 ERRORS = {
@@ -80,6 +83,16 @@ class ScriptedNode(elastic_transport.BaseNode):
             status = int(kind[4:])
             etype, reason = ERRORS[status]
             payload = {"error": {"root_cause": [{"type": etype, "reason": reason}], "type": etype, "reason": reason}, "status": status}
+            return self._resp(status, b"" if head else json.dumps(payload).encode())
+        if kind.startswith("jsn"):
+            status = int(kind[4:])
+            etype, reason = ERRORS[status]
+            payload = {
+                "A": {"error": {"root_cause": [], "type": "search_phase_execution_exception", "reason": "all shards failed", "phase": "query", "grouped": True, "failed_shards": []}, "status": status},
+                "B": {"error": f"{reason} (plain text error)", "status": status},
+                "C": {"message": reason, "ok": False},
+                "D": [{"error": {"type": etype, "reason": reason}}],
+            }[kind[3]]
             return self._resp(status, b"" if head else json.dumps(payload).encode())
         if kind.startswith("html"):
             status = int(kind[4:])
@@ -143,7 +156,7 @@ class Wire:
 
     def transient_kinds(self, target):
         """Kinds that are (mostly) transient faults in the statement's terms; only used to steer the generator."""
-        t = ["ctimeout", "cerror", "tls", "http429", "http502", "http503", "http504", "html502", "html503", "html504", "text503", "empty502"]
+        t = ["ctimeout", "cerror", "tls", "http429", "http502", "http503", "http504", "html502", "html503", "html504", "text503", "empty502", "jsnA503", "jsnB503", "jsnC502", "jsnD504"]
         if target in ("bulk_index", "index"):
             t += ["items429", "items503", "items429+201", "items502+504"]
         return t
@@ -224,7 +237,7 @@ class Wire:
             want = None
             if kind in ("ctimeout", "cerror", "tls"):
                 want = "transient"
-            elif kind[:4] in ("http", "html", "text") or kind.startswith("empty"):
+            elif kind[:4] in ("http", "html", "text", "jsnA", "jsnB", "jsnC", "jsnD") or kind.startswith("empty"):
                 status = int(kind[4:] if not kind.startswith("empty") else kind[5:])
                 if status in c17.RETRYABLE_STATUS:
                     want = "transient"
